@@ -289,6 +289,11 @@ func (g *docGen) val(ty *Src, depth int) JV {
 			out.O = append(out.O, JKV{k, g.val(ty.Elem, depth+1)})
 		}
 		return out
+	case SNullable:
+		if g.forced("elem.null") || g.r.chance(10) {
+			return jNull()
+		}
+		return g.val(ty.Elem, depth)
 	case SRef:
 		t := g.d.lookup(ty.Ref)
 		if t == nil {
@@ -484,6 +489,12 @@ type faultSite struct {
 }
 
 func (g *docGen) faultSites(ty *Src, node *JV, path []pathEl, skipField string, out *[]faultSite) {
+	if in, nullable := ty.unwrap(); nullable {
+		if node == nil || node.isNull() {
+			return // a null entry of a (nullable T) element offers no fault site
+		}
+		ty = in
+	}
 	ty = g.d.resolve(ty)
 	if ty == nil || node == nil {
 		return
@@ -701,6 +712,14 @@ type mutSite struct {
 }
 
 func (g *docGen) mutSites(ty *Src, node *JV, path []pathEl, out *[]mutSite) {
+	if in, nullable := ty.unwrap(); nullable {
+		if node == nil || node.isNull() {
+			// a null entry: redraw the whole element (may become a value)
+			*out = append(*out, mutSite{"leaf", path, ty, nil})
+			return
+		}
+		ty = in
+	}
 	ty = g.d.resolve(ty)
 	if ty == nil || node == nil {
 		return
@@ -763,6 +782,7 @@ func (g *docGen) mutSites(ty *Src, node *JV, path []pathEl, out *[]mutSite) {
 }
 
 func (g *docGen) zeroOr(ty *Src) JV {
+	ty, _ = ty.unwrap()
 	t := g.d.resolve(ty)
 	switch t.Kind {
 	case SString:
